@@ -1300,3 +1300,229 @@ Proof.
 Qed.
 
 End EndToEnd.
+
+(* ------------------------------------------------------------------------------------------ *)
+(** * The grammar is unambiguous                                                                *)
+
+Section Unambiguous.
+Variable is_word_char : Z -> bool.
+Variable is_ecma_start : Z -> bool.
+Variable is_ecma_char : Z -> bool.
+Variable env : penv.
+
+Notation dollar_form := (dollar_form is_word_char is_ecma_start is_ecma_char env).
+Notation rep_spec := (rep_spec is_word_char is_ecma_start is_ecma_char env).
+
+Lemma app_eq_app_cases {A} (a b c d : list A) :
+  a ++ b = c ++ d -> (exists x, c = a ++ x /\ b = x ++ d) \/ (exists x, a = c ++ x /\ d = x ++ b).
+Proof.
+  revert c. induction a as [|y a IH]; intros c H.
+  - left. exists c. split; [reflexivity|exact H].
+  - destruct c as [|z c].
+    + right. exists (y :: a). split; [reflexivity|symmetry; exact H].
+    + cbn [app] in H. inversion H; subst. destruct (IH c H2) as [(x & -> & ->)|(x & -> & ->)].
+      * left. exists x. split; reflexivity.
+      * right. exists x. split; reflexivity.
+Qed.
+
+Lemma dollar_form_functional (p : list Z) (it it' : item) (r r' : list Z) :
+  dollar_form p it r -> dollar_form p it' r' -> it = it' /\ r = r'.
+Proof.
+  intros H1 H2. destruct p as [|c q]; [exfalso; eapply no_form_nil; exact H1|].
+  destruct (is_digit c) eqn:Ed.
+  - apply form_inv_digit in H1 as (ds & A1 & A2 & A3 & A4 & A5 & A6); [|exact Ed].
+    apply form_inv_digit in H2 as (ds' & B1 & B2 & B3 & B4 & B5 & B6); [|exact Ed].
+    assert (ds = ds' /\ r = r') as (<- & <-).
+    { destruct A6 as [(Ae & A6)|(Ae & A6)]; destruct B6 as [(Be & B6)|(Be & B6)]; try congruence.
+      - pose proof (span_digits_of_app _ _ _ _ A2 A6 A3) as E1.
+        pose proof (span_digits_of_app _ _ _ _ B2 B6 B3) as E2. rewrite E1 in E2. inversion E2; auto.
+      - rewrite A3 in B3. destruct (app_eq_app_cases _ _ _ _ B3) as [(x & Hx & Hr)|(x & Hx & Hr)].
+        + destruct x as [|y x]; [rewrite app_nil_r in Hx; subst; auto|].
+          exfalso. rewrite Hx in B2. apply digits_app in B2 as (_ & Bx). rewrite Hx in B5.
+          rewrite (A6 (y :: x) r') in B5; [discriminate|discriminate|exact Bx|exact Hr].
+        + destruct x as [|y x]; [rewrite app_nil_r in Hx; subst; auto|].
+          exfalso. rewrite Hx in A2. apply digits_app in A2 as (_ & Ax).
+          rewrite Hx in A5. rewrite (B6 (y :: x) r) in A5; [discriminate|discriminate|exact Ax|exact Hr]. }
+    split; [congruence|reflexivity].
+  - destruct (Z.eq_dec c 123) as [->|Hc].
+    + apply form_inv_brace in H1. apply form_inv_brace in H2.
+      destruct H1 as [(ds & A1 & A2 & A3 & A4 & A5)|[(nm & A1 & A2 & A3 & A4 & A5 & A6 & A7 & A8)|(a & cs & A1 & A2 & A3 & A4 & A5 & A6 & A7 & A8 & A9)]];
+      destruct H2 as [(ds' & B1 & B2 & B3 & B4 & B5)|[(nm' & B1 & B2 & B3 & B4 & B5 & B6 & B7 & B8)|(a' & cs' & B1 & B2 & B3 & B4 & B5 & B6 & B7 & B8 & B9)]];
+      try congruence.
+      * destruct q as [|y q]; [destruct ds; [contradiction|discriminate]|].
+        pose proof (span_digits_of_app ds (125 :: r) y q A2 eq_refl A3) as E1.
+        pose proof (span_digits_of_app ds' (125 :: r') y q B2 eq_refl B3) as E2.
+        rewrite E1 in E2. inversion E2; subst. auto.
+      * exfalso. destruct ds as [|d ds]; [contradiction|]. destruct nm' as [|x nm']; [contradiction|].
+        rewrite A3 in B7. cbn [app hd] in *. inversion B7; subst. inversion A2; subst. congruence.
+      * exfalso. destruct ds as [|d ds]; [contradiction|]. rewrite A3 in B8. cbn [app] in B8. inversion B8; subst.
+        inversion A2; subst. congruence.
+      * exfalso. destruct ds' as [|d ds']; [contradiction|]. destruct nm as [|x nm]; [contradiction|].
+        rewrite B3 in A7. cbn [app hd] in *. inversion A7; subst. inversion B2; subst. congruence.
+      * pose proof (scan_word_unique is_word_char nm r 125 A3 A5) as E1.
+        pose proof (scan_word_unique is_word_char nm' r' 125 B3 B5) as E2.
+        rewrite <- A7 in E1. rewrite <- B7 in E2. rewrite E1 in E2. inversion E2; subst. auto.
+      * exfalso. destruct ds' as [|d ds']; [contradiction|]. rewrite B3 in A8. cbn [app] in A8. inversion A8; subst.
+        inversion B2; subst. congruence.
+      * rewrite A8 in B8. cbn [app] in B8. inversion B8 as [[Ha Hq]]. subst a'.
+        pose proof (span_ecma_false_unique is_ecma_start is_ecma_char cs r 125 A4 A6) as E1.
+        pose proof (span_ecma_false_unique is_ecma_start is_ecma_char cs' r' 125 B4 B6) as E2.
+        rewrite Hq in E1. rewrite E1 in E2. inversion E2; subst. auto.
+    + apply form_inv_other in H1 as (-> & A); try assumption. apply form_inv_other in H2 as (-> & B); try assumption.
+      split; [|reflexivity].
+      destruct A as [(-> & ->)|(A1 & ->)]; destruct B as [(B0 & ->)|(B1 & ->)]; try reflexivity.
+      * exfalso. apply B1. reflexivity.
+      * exfalso. subst c. apply A1. reflexivity.
+Qed.
+
+Lemma rep_spec_functional (s : list Z) (i1 i2 : list item) :
+  rep_spec s i1 -> rep_spec s i2 -> i1 = i2.
+Proof.
+  intros H1. revert i2. induction H1 as [|c s its Hc H1 IH|s it rest its Hf H1 IH|s its Hno H1 IH]; intros i2 H2.
+  - inversion H2; subst. reflexivity.
+  - inversion H2; subst; try congruence. f_equal. apply IH. assumption.
+  - inversion H2; subst; try congruence.
+    + match goal with Hf' : dollar_form s ?it' ?rest' |- _ =>
+        destruct (dollar_form_functional _ _ _ _ _ Hf Hf') as (<- & <-) end.
+      f_equal. apply IH. assumption.
+    + exfalso. match goal with Hn : forall it rest, ~ dollar_form s it rest |- _ => eapply Hn; exact Hf end.
+  - inversion H2; subst; try congruence.
+    + exfalso. eapply Hno. eassumption.
+    + f_equal. apply IH. assumption.
+Qed.
+
+End Unambiguous.
+
+(* ------------------------------------------------------------------------------------------ *)
+(** * Which errors the parser can report                                                        *)
+
+Section Errors.
+Variable is_word_char : Z -> bool.
+Variable is_ecma_start : Z -> bool.
+Variable is_ecma_char : Z -> bool.
+Variable env : penv.
+
+(* ErrCaptureGroupOutOfRange; in ECMAScript mode also a malformed ${name}: ErrInvalidECMAGroupName,
+   ErrTooFewHex, ErrInvalidHex, ErrMissingBrace *)
+Definition err_ok (c : Z) : Prop :=
+  c = E_CapOutOfRange \/
+  (use_e env = true /\ (c = E_InvalidECMAName \/ c = E_TooFewHex \/ c = E_InvalidHex \/ c = E_MissingBrace)).
+
+Lemma scan_decimal_go_err (i : Z) (p : list Z) (c : Z) : scan_decimal_go i p = Err c -> c = E_CapOutOfRange.
+Proof.
+  revert i. induction p as [|ch p IH]; intros i H; cbn [scan_decimal_go] in H; [discriminate|].
+  destruct ((ch - 48 <? 0) || (9 <? ch - 48)); [discriminate|].
+  destruct ((rg_maxValueDiv10 <? i) || (i =? rg_maxValueDiv10) && (rg_maxValueMod10 <? ch - 48)).
+  - inversion H; reflexivity.
+  - eapply IH; exact H.
+Qed.
+
+Lemma ecma_digits_err (n : Z) (best : option (Z * list Z)) (p : list Z) (c : Z) :
+  ecma_digits env n best p = Err c -> c = E_CapOutOfRange.
+Proof.
+  revert n best. induction p as [|ch p IH]; intros n best H; cbn [ecma_digits] in H; [discriminate|].
+  destruct (negb (is_digit ch)); [discriminate|].
+  destruct ((rg_maxValueDiv10 <? n) || (n =? rg_maxValueDiv10) && (rg_maxValueMod10 <? ch - 48)).
+  - inversion H; reflexivity.
+  - eapply IH; exact H.
+Qed.
+
+Lemma scan_hex_loop_err (k : nat) (i : Z) (p : list Z) (c : Z) : scan_hex_loop k i p = Err c -> c = E_TooFewHex.
+Proof.
+  revert i p. induction k as [|k IH]; intros i p H; cbn [scan_hex_loop] in H; [discriminate|].
+  destruct p as [|ch p]; [inversion H; reflexivity|].
+  destruct (hex_digit ch <? 0); [inversion H; reflexivity|]. eapply IH; exact H.
+Qed.
+Lemma scan_hex_err (k : nat) (p : list Z) (c : Z) : scan_hex k p = Err c -> c = E_TooFewHex.
+Proof. unfold scan_hex. destruct (Nat.leb k (length p)); [apply scan_hex_loop_err|intros H; inversion H; reflexivity]. Qed.
+Lemma scan_hex_brace_err (i : Z) (has : bool) (p : list Z) (c : Z) :
+  scan_hex_brace i has p = Err c -> c = E_TooFewHex \/ c = E_InvalidHex \/ c = E_MissingBrace.
+Proof.
+  revert i has. induction p as [|ch p IH]; intros i has H; cbn [scan_hex_brace] in H.
+  - inversion H; auto.
+  - destruct (ch =? 125).
+    + destruct has; [discriminate|]. inversion H; auto.
+    + destruct (hex_digit ch <? 0); [inversion H; auto|].
+      destruct (1114111 <? i * 16 + hex_digit ch); [inversion H; auto|]. eapply IH; exact H.
+Qed.
+
+Lemma scan_ecma_capname_go_err (fuel : nat) (index : Z) (acc p : list Z) (c : Z) :
+  scan_ecma_capname_go is_ecma_start is_ecma_char env fuel index acc p = Err c ->
+  c = E_InvalidECMAName \/ c = E_TooFewHex \/ c = E_InvalidHex \/ c = E_MissingBrace.
+Proof.
+  revert index acc p. induction fuel as [|f IH]; intros index acc p H; cbn [scan_ecma_capname_go] in H; [discriminate|].
+  destruct p as [|ch p1]; [discriminate|].
+  destruct (ch =? 92).
+  - destruct p1 as [|u p2]; [inversion H; auto|]. destruct (negb (u =? 117)); [inversion H; auto|].
+    match type of H with bind ?X _ = _ => destruct X as [[v p3]|e| |] eqn:EX end; cbn [bind] in H; try discriminate.
+    + destruct (negb (if index =? 0 then is_ecma_start v else is_ecma_char v)); [inversion H; auto|].
+      eapply IH; exact H.
+    + inversion H; subst e. destruct p2 as [|b p2'].
+      * apply scan_hex_err in EX. auto.
+      * destruct (b =? 123).
+        -- destruct (use_u env); [|inversion EX; auto]. apply scan_hex_brace_err in EX. tauto.
+        -- apply scan_hex_err in EX. auto.
+  - destruct (negb (if index =? 0 then is_ecma_start ch else is_ecma_char ch)); [discriminate|].
+    eapply IH; exact H.
+Qed.
+
+Lemma scan_dollar_err (p : list Z) (c : Z) :
+  scan_dollar is_word_char is_ecma_start is_ecma_char env p = Err c -> err_ok c.
+Proof.
+  unfold scan_dollar. destruct p as [|ch0 p0]; [discriminate|].
+  set (angled := (ch0 =? 123) && (1 <? zlen (ch0 :: p0))).
+  destruct (if angled then p0 else ch0 :: p0) as [|ch q1]; [discriminate|].
+  destruct (is_digit ch).
+  - destruct (negb angled && use_e env).
+    + destruct (ecma_digits env (ch - 48) (if is_capture_slot env (ch - 48) then Some (ch - 48, q1) else None) q1)
+        as [r|e| |] eqn:E; cbn [bind]; try discriminate.
+      * destruct r as [[capnum rest']|]; [destruct (0 <=? capnum)|]; discriminate.
+      * intros H; inversion H; subst e. left. eapply ecma_digits_err; exact E.
+    + unfold scan_decimal. destruct (scan_decimal_go 0 (ch :: q1)) as [[capnum q2]|e| |] eqn:E; cbn [bind]; try discriminate.
+      * destruct (negb angled); [destruct (true && is_capture_slot env capnum); discriminate|].
+        destruct q2 as [|x q3]; [discriminate|]. destruct ((x =? 125) && is_capture_slot env capnum); discriminate.
+      * intros H; inversion H; subst e. left. eapply scan_decimal_go_err; exact E.
+  - destruct (angled && is_group_name_start is_word_char is_ecma_start env ch).
+    + unfold scan_capname. destruct (use_e env) eqn:Ee.
+      * destruct (scan_ecma_capname_go is_ecma_start is_ecma_char env (S (length (ch :: q1))) 0 [] (ch :: q1))
+          as [[a r]|e| |] eqn:E; cbn [bind]; try discriminate.
+        -- destruct r as [|x q3]; [discriminate|]. destruct ((x =? 125) && is_capture_name env (map write_rune a)); discriminate.
+        -- intros H; inversion H; subst e. right. split; [exact Ee|]. eapply scan_ecma_capname_go_err; exact E.
+      * cbn [bind]. destruct (scan_word is_word_char (ch :: q1)) as [a r].
+        destruct r as [|x q3]; [discriminate|]. destruct ((x =? 125) && is_capture_name env a); discriminate.
+    + destruct (negb angled); [|discriminate]. destruct (ch =? 36); [discriminate|].
+      destruct (negb (special_capnum ch =? 1)); discriminate.
+Qed.
+
+Lemma scan_replacement_go_err (fuel : nat) (p : list Z) (c : Z) :
+  scan_replacement_go is_word_char is_ecma_start is_ecma_char env fuel p = Err c -> err_ok c.
+Proof.
+  revert p. induction fuel as [|f IH]; intros p H; [discriminate|]. cbn [scan_replacement_go] in H.
+  destruct p as [|x p']; [discriminate|].
+  destruct (span_dollar (x :: p')) as [run rest]. destruct rest as [|d after]; [discriminate|].
+  destruct (scan_dollar is_word_char is_ecma_start is_ecma_char env after) as [[nd rest']|e| |] eqn:E; cbn [bind] in H; try discriminate.
+  - destruct (scan_replacement_go is_word_char is_ecma_start is_ecma_char env f rest') as [more|e| |] eqn:E2; cbn [bind] in H; try discriminate.
+    inversion H; subst e. eapply IH; exact E2.
+  - inversion H; subst e. eapply scan_dollar_err; exact E.
+Qed.
+
+Lemma build_rules_no_err (children : list rnode) (sb : list Z) (strings : list (list Z)) (rules : list Z) (c : Z) :
+  build_rules env children sb strings rules <> Err c.
+Proof.
+  revert sb strings rules. induction children as [|nd rest IH]; intros sb strings rules; cbn [build_rules].
+  - destruct (flush sb strings rules). discriminate.
+  - destruct (n_t nd =? rg_NtMulti); [apply IH|]. destruct (n_t nd =? rg_NtOne); [apply IH|].
+    destruct (n_t nd =? rg_NtRef); [|discriminate]. destruct (flush sb strings rules). apply IH.
+Qed.
+
+Lemma new_replacer_data_err (rep : list Z) (c : Z) :
+  Replace.new_replacer_data is_word_char is_ecma_start is_ecma_char env rep = Err c -> err_ok c.
+Proof.
+  unfold Replace.new_replacer_data, scan_replacement.
+  destruct (scan_replacement_go is_word_char is_ecma_start is_ecma_char env (S (length rep)) rep) as [children|e| |] eqn:E;
+    cbn [bind]; try discriminate.
+  - rewrite Z.eqb_refl. cbn [negb]. intros H. exfalso. eapply build_rules_no_err; exact H.
+  - intros H; inversion H; subst e. eapply scan_replacement_go_err; exact E.
+Qed.
+
+End Errors.
